@@ -43,7 +43,7 @@ def range_dir(it, ext):
     return None
 
 
-def analyse_scan(prog, rep, kern, entry, loop, ext, data, listparam, mode):
+def analyse_scan(prog, rep, kern, entry, loop, ext, data, listparam, mode, earlier=None):
     """one directional scan; returns (axis, direction, bound variable) or None"""
     rd = range_dir(loop.iter, ext)
     site = 'for %s in %s' % (norm(loop.target), norm(loop.iter))
@@ -78,6 +78,15 @@ def analyse_scan(prog, rep, kern, entry, loop, ext, data, listparam, mode):
     il = inner[0][1]
     ird = range_dir(il.iter, ext)
     other = 'C' if axis == 'R' else 'R'
+    if ird is None and earlier and isinstance(il.iter, ast.Call) and norm(il.iter.func) == 'range' and \
+            len(il.iter.args) == 2:
+        # optimisation: lines outside the already found bounds of the other axis are known to hold no kept cell
+        a, b = il.iter.args
+        lo_ok = isinstance(a, ast.Name) and a.id == earlier.get((other, 'asc'))
+        hi_ok = isinstance(b, ast.BinOp) and isinstance(b.op, ast.Add) and const(b.right) == 1 and \
+            isinstance(b.left, ast.Name) and b.left.id == earlier.get((other, 'desc'))
+        if lo_ok and hi_ok:
+            ird = (other, 'asc')
     rep.add('T2-line', kern, entry, site + ': for %s in %s' % (norm(il.target), norm(il.iter)), il.lineno,
             ird is not None and ird[0] == other and isinstance(il.target, ast.Name),
             'the whole line must be examined: inner loop over the full extent of the other axis')
@@ -153,9 +162,12 @@ def analyse(prog, rep, pubname, mode):
     listparam = kern.params[1]
     loops = [s for s in kern.node.body if isinstance(s, ast.For)]
     results = []
+    earlier = {}
     for lp in loops:
-        r = analyse_scan(prog, rep, kern, entry, lp, ext, data, listparam, mode)
+        r = analyse_scan(prog, rep, kern, entry, lp, ext, data, listparam, mode, dict(earlier))
         results.append(r)
+        if r and r[2]:
+            earlier[(r[0], r[1])] = r[2]
     got = [(r[0], r[1]) for r in results if r]
     rep.add('T2-scan', kern, entry, 'scan directions %s' % got, kern.node.lineno, got == EXPECT or sorted(got) == sorted(EXPECT),
             'exactly four scans are needed: rows ascending, rows descending, columns ascending, columns descending')
